@@ -130,63 +130,29 @@ size_t off_of(const volatile void *p) { return g_book ? (size_t)((uintptr_t)p - 
 } // namespace
 
 extern "C" {
-void vfs_init(volatile size_t *p, size_t v) { *p = v; if (g_book) g_atoms[off_of(p)] = v; }
-size_t vfs_fetch_add(volatile size_t *p, size_t v)
+// the shim's atomic macros (../shim/stdatomic.h) perform the step themselves; these are the hooks around it
+void vfs_pre(int kind, const volatile void *p, size_t sz)
 {
-    yield_point("fetch_add", 0x11);
-    check_book_addr(p, "atomic_fetch_add");
-    size_t old = *p;
-    *p = old + v;
-    g_atoms[off_of(p)] = old + v;
-    if (cur >= 0) F[cur].hist = hmix(F[cur].hist, old);
-    return old;
+    static const char *KN[] = {"", "fetch_add", "fetch_sub", "fetch_or", "fetch_and", "fetch_xor", "exchange", "load", "store",
+                               "compare_exchange", "test_and_set", "flag_clear"};
+    (void)sz;
+    yield_point(KN[kind % 12], 0x10 + (uint64_t)kind);
+    if (g_book && cur >= 0) check_book_addr(p, KN[kind % 12]);
 }
-size_t vfs_fetch_sub(volatile size_t *p, size_t v)
+void vfs_post(const volatile void *p, size_t sz, unsigned long long observed, unsigned long long now)
 {
-    yield_point("fetch_sub", 0x12);
-    check_book_addr(p, "atomic_fetch_sub");
-    size_t old = *p;
-    *p = old - v;
-    g_atoms[off_of(p)] = old - v;
-    if (cur >= 0) F[cur].hist = hmix(F[cur].hist, old);
-    return old;
+    (void)sz;
+    if (g_book) g_atoms[off_of(p)] = (size_t)now;
+    if (cur >= 0) F[cur].hist = hmix(F[cur].hist, observed);
 }
-size_t vfs_load(const volatile size_t *p)
+void vfs_flag_lost(const volatile void *f)
 {
-    yield_point("load", 0x13);
-    check_book_addr(p, "atomic_load");
-    size_t v = *p;
-    if (cur >= 0) F[cur].hist = hmix(F[cur].hist, v);
-    return v;
+    if (cur >= 0) F[cur].park_addr = (volatile int *)f;       // lost the race: the coming sched_yield parks this fibre
 }
-void vfs_store(volatile size_t *p, size_t v)
+void vfs_flag_cleared(const volatile void *f)
 {
-    yield_point("store", 0x14);
-    check_book_addr(p, "atomic_store");
-    *p = v;
-    g_atoms[off_of(p)] = v;
-}
-int vfs_flag_tas(volatile int *f)
-{
-    yield_point("test_and_set", 0x15);
-    check_book_addr(f, "atomic_flag_test_and_set");
-    int old = *f;
-    *f = 1;
-    g_atoms[off_of(f)] = 1;
-    if (cur >= 0) {
-        F[cur].hist = hmix(F[cur].hist, (uint64_t)old);
-        if (old) F[cur].park_addr = f;      // lost the race: the coming sched_yield parks this fibre
-    }
-    return old;
-}
-void vfs_flag_clear(volatile int *f)
-{
-    yield_point("flag_clear", 0x16);
-    if (g_book && cur >= 0) check_book_addr(f, "atomic_flag_clear");
-    *f = 0;
-    if (g_book) g_atoms[off_of(f)] = 0;
     // wake fibres parked on this flag
-    for (int t = 0; t < T; t++) if (F[t].parked && F[t].park_addr == f) { F[t].parked = false; F[t].park_addr = nullptr; }
+    for (int t = 0; t < T; t++) if (F[t].parked && (const volatile void *)F[t].park_addr == f) { F[t].parked = false; F[t].park_addr = nullptr; }
 }
 int vfs_sched_yield(void)
 {
